@@ -22,7 +22,10 @@ import (
 	"gopkg.in/yaml.v3"
 )
 
-func init() { engines["totality"] = engineTotality }
+func init() {
+	engines["totality"] = engineTotality
+	c10HostileStrings = append(c10HostileStrings, vlib.OddCaseWords...) // case mappings that change the encoded length
+}
 
 var c10HostileStrings = []string{"\x00", "a\x00b", "\x00\x00\x00", "\xff", "\xc3\x28", "\xed\xa0\x80", "\xf4\x90\x80\x80", "e\u0301\u0301\u0301", "\u202e", "\ufeff",
 	"(", "[a-", "\\", "*+?", "{{.Names}}", "%s%d%!", "$(rm)", "'; --", "\r\n", "\t", "\u0085", "\u2028", "İ", "\u212a", "ſ", "ß", "ǅ", "😀", strings.Repeat("a", 1000),
